@@ -90,8 +90,8 @@ def merge_pairs():
     must equal the reference of the merged structure; they exercise how identical rows of several generators unite"""
     P = []
 
-    def add(name, fa, fb):
-        P.append((name, fa, fb))
+    def add(name, fa, fb, negated=False):
+        P.append((name, fa, fb, negated))
     # the same block row: first without children, then with (and the other way round); a second childless block next to it
     add("childless-then-children", lambda: [ARule("a *"), ARule("b *")], lambda: [ARule("a *", [ARule("c *")])])
     add("children-then-childless", lambda: [ARule("a *", [ARule("c *")])], lambda: [ARule("a *"), ARule("b *")])
@@ -100,6 +100,15 @@ def merge_pairs():
     add("same-block-different-children", lambda: [ARule("a *", [ARule("c *")])], lambda: [ARule("a *", [ARule("d")]), ARule("b ~")])
     add("nested-same-rows", lambda: [ARule("a *", [ARule("c *"), ARule("d")])], lambda: [ARule("a *", [ARule("c *", [ARule("d *")])])])
     add("cant-delete-mix", lambda: [ARule("a *", [ARule("c *")], cant_delete=True)], lambda: [ARule("a *", [ARule("d")], cant_delete=False)])
+    # the flags of identical rows are united whatever the rows' other flags are: a row one generator protects and another may
+    # delete is deletable (its negated form passes) - for local rows and for %global rows, in both orders
+    add("cd-mix-local-negated", lambda: [ARule("c *", cant_delete=True), ARule("a *", [ARule("d", cant_delete=True)])],
+        lambda: [ARule("c *", cant_delete=False), ARule("a *", [ARule("d")])], True)
+    add("cd-mix-global-negated", lambda: [ARule("a *", [ARule("c ~", glob=True, cant_delete=True)])],
+        lambda: [ARule("a *", [ARule("c ~", glob=True)])], True)
+    add("cd-mix-global-negated-rev", lambda: [ARule("a *", [ARule("c ~", glob=True)])],
+        lambda: [ARule("a *", [ARule("c ~", glob=True, cant_delete=True)])], True)
+    add("cd-all-protect-global-negated", lambda: [ARule("c ~", glob=True, cant_delete=True)], lambda: [ARule("c ~", glob=True, cant_delete=True), ARule("a *")], True)
     add("prio-united-by-max", lambda: [ARule("~", [ARule("e")], prio=1)], lambda: [ARule("~", [ARule("d")]), ARule("c *", glob=True)])
     add("global-and-local-elsewhere", lambda: [ARule("d", glob=True), ARule("a *")], lambda: [ARule("a *", [ARule("c *")]), ARule("b *")])
     return P
